@@ -148,8 +148,7 @@ theorem twoPoint_whole (p1 p2 : List α) (h : p1.length = p2.length) :
       rw [child_getElem? _ p1 p2 h]
       by_cases hj : j < p1.length
       · simp [Spec.inSeg, hj]
-      · simp [Spec.inSeg, hj, List.getElem?_eq_none (show p1.length ≤ j by omega),
-          List.getElem?_eq_none (show p2.length ≤ j by omega)]
+      · simp [Spec.inSeg, hj, List.getElem?_eq_none (show p2.length ≤ j by omega)]
     rwa [e] at this
   · have := (twoPoint_every_segment p1 p2 h 0 0 (Nat.le_refl _) (Nat.zero_le _)).1
     have e : Spec.twoPointChild 0 0 p1 p2 = p1 := by
@@ -245,7 +244,7 @@ theorem uniformVec_requests (p1 p2 : List α) (h : p1.length = p2.length) (tape 
     exact H p1 p2 tape _ h ht (fun c t' => by simp [Rand.requests])
   intro a
   induction a with
-  | nil => intro b t f hab; cases b <;> simp_all [uniformVecLoop, Rand.requests]
+  | nil => intro b t f hab; cases b <;> simp_all [uniformVecLoop]
   | cons x a ih =>
     intro b t f hab hbt hf
     cases b with
